@@ -87,6 +87,10 @@ SPEC = [
     ("codimension", "real, codimension[*] :: {n1}", "f08"),
     # ---- added after a coverage audit of the rule classes' match()/tostr() (tools/covaudit.py) and the
     # round-3 seeded changes; flag x = extended (quick tier: fewer rotations, no depth-2 nesting)
+    ("use_colons", "use :: {n1}", "x"),
+    ("cray_pointer", "pointer ({n1}, {n2}), ({n3}, {n4}({d1}))", "fix x"),
+    ("format_hollerith", "{L1} format (3habc, i{d1}, 1h,, 2x)", "fix x"),
+    ("codimension_lower", "real, codimension[{d1}, 0:*] :: {n1}", "f08 x"),
     ("bind_stmt", "bind(c, name='{s1}') :: {n1}", "x"),
     ("bind_stmt_nocolons", "bind(c) {n1}, /{n2}/", "x"),
     ("data_implied", "data ({n1}({n2}), {n2} = 1, {d1}, 2) /{d2}*0/", "fix x one"),
